@@ -421,6 +421,11 @@ func runCase(c Case, o *kit.Obs) *kit.Failure {
 		}
 		normalise(gs)
 		if d := multisetDiff(tcols, want, gs); d != "" {
+			if cc, cw, cg := commonOnly(c, tcols, want, gs); len(cc) < len(tcols) {
+				if dc := multisetDiff(cc, cw, cg); dc != "" {
+					return kit.Failf("c12/common-columns-differ"+feat+"{sorted}", "columns present on both sides differ (the target also adds columns): %s", dc)
+				}
+			}
 			return kit.Failf(sigFor(c, feat+"{sorted}"), "%s", d)
 		}
 	} else {
@@ -430,6 +435,12 @@ func runCase(c Case, o *kit.Obs) *kit.Failure {
 		}
 		normalise(gs)
 		if d := pq.DiffStreams(tcols, want, gs); d != "" {
+			// the open findings about ADDED columns never excuse a difference in a column present on both sides
+			if cc, cw, cg := commonOnly(c, tcols, want, gs); len(cc) < len(tcols) {
+				if dc := pq.DiffStreams(cc, cw, cg); dc != "" {
+					return kit.Failf("c12/common-columns-differ"+feat, "columns present on both sides differ (the target also adds columns): %s", dc)
+				}
+			}
 			return kit.Failf(sigFor(c, feat), "%s", d)
 		}
 	}
@@ -503,6 +514,49 @@ var spec = &kit.Spec[Case]{
 }
 
 func TestProp(t *testing.T) { kit.Both(t, spec) }
+
+// commonOnly projects the target columns and both stream sets onto the leaf
+// columns that come from the source (no added node on their path).
+func commonOnly(c Case, tcols []ref.Column, want, got [][]ref.LV) ([]ref.Column, [][]ref.LV, [][]ref.LV) {
+	var keep []bool
+	var walk func(n ref.Node, m M, added bool)
+	walk = func(n ref.Node, m M, added bool) {
+		if n.Kind == "leaf" {
+			keep = append(keep, !added)
+			return
+		}
+		for i := range n.Children {
+			a := added
+			var cm M
+			if i < len(m.Ch) {
+				cm = m.Ch[i]
+				if cm.From < 0 {
+					a = true
+				}
+			}
+			walk(n.Children[i], cm, a)
+		}
+	}
+	for i := range c.Target.Children {
+		a := false
+		var cm M
+		if i < len(c.Map.Ch) {
+			cm = c.Map.Ch[i]
+			a = cm.From < 0
+		}
+		walk(c.Target.Children[i], cm, a)
+	}
+	var cc []ref.Column
+	var cw, cg [][]ref.LV
+	for i := range tcols {
+		if i < len(keep) && keep[i] {
+			cc = append(cc, tcols[i])
+			cw = append(cw, want[i])
+			cg = append(cg, got[i])
+		}
+	}
+	return cc, cw, cg
+}
 
 func walkAdded(n ref.Node, m M, f func(ref.Node)) {
 	for i := range n.Children {
